@@ -169,6 +169,38 @@ def skeleton_block(forest, T, nm, loopvars):
     return b
 
 
+# ---- compound conditions --------------------------------------------------------------------------
+# Statements over one atom X that have the truth value of X under the documented and-of-ors grouping (theorem C06_eval): the
+# block commands must take the same branch whether the condition is written `X` or as one of these (seed C04-w6-m2: an early
+# `true` at the operand after a passed `or` made `if true or x and false` run the if body instead of the elseif body).
+COMPOUND = ["true or false and X", "X or false and true", "( X )", "false or ( X and true )", "X and true or false",
+            "false or X", "true and X", "( true or false ) and ( X or X )", "X or X and X"]
+
+
+def _and_of_ors(tokens):
+    runs, cur = [], []
+    for t in tokens:
+        if t == "and":
+            runs.append(cur)
+            cur = []
+        elif t != "or":
+            cur.append(t)
+    runs.append(cur)
+    return all(any(a == "true" for a in run) for run in runs)
+
+
+def _flat(text, x):
+    """truth value of a compound form (groups evaluated first)"""
+    import re
+    t = text.replace("X", x)
+    while "(" in t:
+        t = re.sub(r"\( ([^()]*) \)", lambda m: "true" if _and_of_ors(m.group(1).split()) else "false", t)
+    return _and_of_ors(t.split())
+
+
+assert all(_flat(c, "true") is True and _flat(c, "false") is False for c in COMPOUND)
+
+
 # ---- random programs -------------------------------------------------------------------------------
 SAFE_VALUES = ["x", "yes", "1", "0", "no", "NO", "False", "abc", "T", "F", "00", "n0", "q"]
 
@@ -202,6 +234,7 @@ class Gen:
         init = []
         for k, v in sorted(self.scripts.items()):
             init += [k, v]
+        init += ["kf", "false", "kt", "yes"]     # two constants for conditions (never assigned by a program)
         return pre + body, init
 
     def cond_var(self):
@@ -216,8 +249,13 @@ class Gen:
     def cond(self, loop):
         r = self.rng
         if loop:
+            if r.random() < 0.08:
+                return ("V", "kf")                 # a loop that is never entered
             return ("N", self.cond_var())          # terminates: the script runs out
         x = r.random()
+        if x < 0.12:
+            c = ("V", r.choice(["kt", "kf"]))      # a constant: written as a compound and / or statement in a third of the cases
+            return ("!", c) if r.random() < 0.3 else c
         if x < 0.55:
             return ("N", self.cond_var())
         if x < 0.70:
@@ -518,6 +556,11 @@ def run(ck):
                 sdk_flags[-1] = True
                 # empty lines written as calls of a script-implemented SDK command without output variable (no visible effect)
                 f[0] = enc_list([l if l != "" else "join_path a b" for l in dec_list(f[0])])
+            elif cases[k][0] == "random" and k % 3 == 1:
+                # the constants kt / kf in condition position written as compound and / or statements of the same truth value
+                f[0] = enc_list([l.replace("${kt}", COMPOUND[(k + j) % len(COMPOUND)].replace("X", "${kt}"))
+                                  .replace("${kf}", COMPOUND[(k + 2 * j) % len(COMPOUND)].replace("X", "${kf}"))
+                                 for j, l in enumerate(dec_list(f[0]))])
             impl_lines.append("R\t%s\t%s" % (f[0], enc_list(cases[k][2])))
         i_out = ck.impl(impl_lines, timeout=900)
         # a HANG verdict (CPU-time fuse of the harness) is confirmed with a five times longer fuse
@@ -574,7 +617,8 @@ def run(ck):
                 counters["found"] = True
                 if len(ck.violations) < 5:
                     ck.violation({
-                        "kind": bad, "case_kind": kind, "script": script_lines, "initial_variables": init,
+                        "kind": bad, "case_kind": kind, "script": dec_list(impl_lines[pos].split("\t")[1]), "initial_variables": init,
+                        "script_of_the_model": script_lines,
                         "tree_prefix": " ".join(t_block(tree)),
                         "spec(tree_run)": spec, "model(flat machine)": model, "implementation": io,
                         "theorems": ["C04_sim", "C04_program", "C04_find_own_end", "C04_tables"], "seed": ck.seed,
